@@ -264,6 +264,10 @@ FIELDS = {
     # with every other field (exit code, pre/post failures, ranks, ...)
     'outerr': ([None, 'same-rel', 'same-abs'],
                [None, 'same-rel', 'same-abs'], None),
+    # named_env: none / a prepared env which also defines the described
+    # variable C10_A / one which does not (its activation script then unsets
+    # C10_A, which the agent process has in its environment)
+    'nenv'  : ([None, 'def', 'unset'], [None, 'def', 'unset'], None),
     'pre'   : (PRE_CORE,  PRE_FULL,  None),
     'post'  : (POST_CORE, POST_FULL, None),
     # number of GPUs per rank (ids per rank: GPU_MAP) or a named id pattern
@@ -283,13 +287,16 @@ BASE = {'lm': 'FORK', 'ranks': 1,
         'exe': 'abs', 'args': ['a'], 'env': [], 'stdout': '', 'stderr': '',
         'pre': ['mark:A'], 'post': ['mark:Z'], 'gpus': 0, 'cpr': 1,
         'sync': False, 'exit': 0, 'name': None, 'sbox': 'in',
-        'start': 'popen', 'startup': 0, 'outerr': None}
+        'start': 'popen', 'startup': 0, 'outerr': None,
+        'nenv': None}
 
 # fields whose effect depends on the rank or on the number of ranks (per-rank
 # switches, barrier, start-up notice by rank 0, exit status of several ranks,
 # output streams shared by the ranks)
 RANK_FIELDS = ('pre', 'post', 'gpus', 'sync', 'startup', 'exit',
-               'stdout', 'stderr', 'outerr')
+               'stdout', 'stderr', 'outerr',
+               'nenv')       # activation script is built per launch method
+
 
 # quick tier, several ranks: argument / environment values which enter the
 # products of field pairs (all values are still varied alone)
@@ -526,7 +533,20 @@ class World(object):
                     'HOME'        : root,
                     'LANG'        : 'C.UTF-8',
                     'TMPDIR'      : self.tmp,
-                    'C10_AGENT'   : '1'}
+                    'C10_AGENT'   : '1',
+                    ENV_NAMES[0]  : 'agent'}
+
+        # named environments as `_prepare_env` leaves them: a dump of the
+        # prepared environment.  The activation script is made from it by the
+        # real LaunchMethod.get_task_named_env() / ru.env_prep() when the
+        # first task asks for it.
+        for name, extra in (('def',   {'C10_NE': 'def',
+                                       ENV_NAMES[0]: 'named'}),
+                            ('unset', {'C10_NE': 'unset'})):
+            dump = {k: self.env[k] for k in ('PATH', 'HOME', 'LANG')}
+            dump.update(extra)
+            _write('%s/env/rp_named_env.c10%s.env' % (self.psbox, name),
+                   ''.join('%s=%s\n' % kv for kv in sorted(dump.items())))
 
         self._make_executor()
 
@@ -698,6 +718,7 @@ class World(object):
         if p['stderr']   : desc['stderr']   = p['stderr']
         if case['name']  : desc['name']     = case['name']
         if case['startup']: desc['startup_timeout'] = case['startup']
+        if case['nenv']   : desc['named_env'] = 'c10%s' % case['nenv']
         return desc
 
 
@@ -924,6 +945,7 @@ SITES = {'argv'       : 'LaunchMethod._create_arg_string',
          'exit-code'  : '_get_exec/_get_launch',
          'terminates' : '_create_exec_script',
          'startup-notice': '_create_exec_script',
+         'named-env'  : '_get_task_env',
          'launcher'   : 'ResourceManager.find_launcher'}
 
 
@@ -1040,7 +1062,8 @@ def check(world, case, obs):
                  'pre_exec exported %s=%r, executable sees %r' % (k, v, g)
                  for k, v, g in bad)))
 
-        known = set(['C10_AGENT', 'C10_LM_ENV']) | set(exports) | \
+        known = set(['C10_AGENT', 'C10_LM_ENV', 'C10_NE', ENV_NAMES[0]]) | \
+                set(exports) | \
                 set(k for k, _ in case['env'])
         alien = sorted(k for k in env if k.startswith(('C10_', 'c10_'))
                                       and k not in known)
@@ -1048,6 +1071,10 @@ def check(world, case, obs):
             fail('env-foreign', 'rank %d: executable sees %s which this task '
                                 'does not describe'
                                 % (r, {k: env[k] for k in alien}))
+
+        if env.get('C10_NE') != case['nenv']:
+            fail('named-env', 'rank %d: named env %r, executable sees C10_NE=%r'
+                              % (r, case['nenv'], env.get('C10_NE')))
 
         if gpr(case):
             want_cvd = ','.join(str(g) for g in gpu_ids(case, r))
@@ -1561,7 +1588,10 @@ def run(ctx):
                  'rank, pre_exec_sync, exit code 0/3, task name, sandbox in '
                  '/ outside the pilot sandbox, launch script started by '
                  'Popen._launch_task / from another directory, '
-                 'startup_timeout 0 / 5 s ($RP_CTRL is a recording stand-in).  '
+                 'startup_timeout 0 / 5 s ($RP_CTRL is a recording stand-in), '
+                 'named_env (none / a prepared env which defines a described '
+                 'variable / one whose activation unsets it; activation '
+                 'script built by the real get_task_named_env).  '
                  'Not enumerated: '
                  'pre_exec_sync with a pre_exec failing on some but not all '
                  'ranks '
